@@ -9,7 +9,20 @@ class C07(Prop):
     lean_module = "Stgutg.Props.C07"
     gen = ["tables"]
     theorems = [
-        "Stgutg.Props.C07.sr_table", "Stgutg.Props.C07.sq_table",
+        "Stgutg.Props.C07.sr_table",
+        "Stgutg.Props.C07.sq_table",
+        "Stgutg.Props.C07.tables_complete",
+        "Stgutg.Props.C07.snow3g_model_eq_spec",
+        "Stgutg.Props.C07.nea1",
+        "Stgutg.Props.C07.nia1",
+        "Stgutg.Props.C07.nea2",
+        "Stgutg.Props.C07.nia2",
+        "Stgutg.Props.C07.nea0_id",
+        "Stgutg.Props.C07.eea1_covers_every_octet",
+        "Stgutg.Props.C07.xor_involutive",
+        "Stgutg.Props.C07.nea1_involutive",
+        "Stgutg.Props.C07.nea2_involutive",
+        "Stgutg.Props.C07.snow3g_init_overwrites_state",
     ]
     domains = [Domain("sec-alg", 2000, 100000)]
     rule = ("sec-alg: NASEncrypt/NASMacCalculate at every length 1..80 (thorough 1..600) x alg x dir x bearer{0,1,31} "
@@ -17,6 +30,15 @@ class C07(Prop):
             "under a non-null algorithm; distinct by op line")
     trusted_base = ["crypto/aes, cipher.NewCTR, github.com/aead/cmac are parameters of the theorems (Prims); "
                     "Crypto/Aes.lean instantiates them for the comparator only (FIPS-197/SP800-38A/RFC4493 vectors)"]
+    level_text = ("Theorems for all keys/COUNT/BEARER/DIRECTION and all message lengths: the code-shaped models of NEA1/NIA1 "
+                  "(incl. SNOW 3G with its tables regenerated from the source) equal 128-EEA1/EIA1, NEA2/NIA2 equal 128-EEA2/EIA2 "
+                  "parametric in AES-CTR/CMAC, NEA0 is the identity, every octet is covered, the ciphers are involutions; "
+                  "models tied to security.go/snow3g.go by a table translator and a differential run at every length")
+    level_note = ("crypto/aes, cipher.NewCTR, aead/cmac are parameters (trusted); hand models tied by differential execution; "
+                  "specs transcribed from TS 35.215/35.216/33.401-B and anchored by TS 35.222 / FIPS-197 / RFC 4493 vectors")
+    technique = "Lean 4 proof (model = spec for all inputs) + table translator + differential correspondence"
+    partial_note = ("'function of the arguments only' is proved for sequential use (InitSnow3g overwrites all state); "
+                    "concurrent use is property C20")
     assumptions = ["message lengths are below 2^29 octets (uint32(len)*8 does not wrap)"]
 
     def key(self, op, impl, model, spec):
